@@ -132,3 +132,13 @@ META["C19"] = {
     "note": "Only invariants are asserted where the statement leaves the exact result open (how a second normal mode is refused); re-selecting the already active mode is not asserted to keep the start time; the concurrent variant judges only executed schedules.",
     "technique": "bounded-exhaustive operation sequences + rapid stateful sequences + concurrent stress, invariant oracle with a fake clock",
 }
+META["C20"] = {
+    "text": ("Per-model stateful property testing against small executable specifications with random configurations: set algebra over trait names for the parent model; exact unit arithmetic "
+             "(each quantity in its own unit, floor at zero, conversion errors reported with the stock unchanged, Convert round trips, initial consumables/stock land where configured) for vending; "
+             "preset-table consistency of preset/index/percentage after masked, nil-mask full, nil-mask partial and relative RPC updates for fan speed; first-given-value initialisation and wrapping "
+             "relative steps over the given modes for the mode model; the three documented total rules, reset and Pull-seed agreement for enter/leave; start<=end, end=now, start kept, reset "
+             "semantics with a fake clock for the meter; version-as-a-function-of-content, publish time, receipt reset, stale-version rejection and the acknowledge protocol for publications. "
+             "Every operation is wrapped so that a panic on a well-formed request is a violation."),
+    "note": "Specifications are the harness's own (c20/models_test.go); float32 stock arithmetic is compared with 1e-4 relative tolerance; the explicitly unimplemented ReverseFanSpeedDirection RPC is excluded.",
+    "technique": "per-model stateful property testing (rapid) against executable specifications with random configurations",
+}
